@@ -1073,9 +1073,7 @@ struct const_subarray : array_types<T, D, ElementPtr, Layout> {
  public:
 	const_subarray(const_subarray&&) noexcept = default;  // lints(readability-redundant-access-specifiers)
 
-	constexpr auto       elements()      & ->       elements_range { return elements_aux_(); }
-	constexpr auto       elements()     && ->       elements_range { return elements_aux_(); }
-	constexpr auto       elements() const&                         { return const_elements_range(this->base(), this->layout()); }
+	constexpr auto       elements() const                          { return const_elements_range(this->base(), this->layout()); }
 	constexpr auto const_elements() const  -> const_elements_range { return elements_aux_(); }
 
 	constexpr auto hull() const -> std::pair<element_const_ptr, size_type> {
@@ -1974,6 +1972,10 @@ class subarray : public const_subarray<T, D, ElementPtr, Layout> {
 	using const_subarray<T, D, ElementPtr, Layout>::home;
 	constexpr auto home()     && { return this->home_aux_(); }
 	constexpr auto home()      & { return this->home_aux_(); }
+
+	constexpr auto elements()      & { return this->elements_aux_(); }
+	constexpr auto elements()     && { return this->elements_aux_(); }
+	constexpr auto elements() const& { return const_subarray<T, D, ElementPtr, Layout>::elements(); }
 
 	template<class It> constexpr auto assign(It first) & -> It { adl_copy_n(first, this->size(), begin()); std::advance(first, this->size()); return first; }
 	template<class It> constexpr auto assign(It first)&& -> It { return assign(first);}
@@ -2948,9 +2950,7 @@ struct const_subarray<T, 1, ElementPtr, Layout>  // NOLINT(fuchsia-multiple-inhe
 	constexpr auto elements_aux_() const {return elements_range{this->base_, this->layout()};}
 
  public:
-	constexpr auto  elements()      & ->       elements_range {return elements_aux_();}
-	constexpr auto  elements()     && ->       elements_range {return elements_aux_();}
-	constexpr auto  elements() const& -> const_elements_range {return const_elements_range{this->base(), this->layout()};}  // TODO(correaa) simplify
+	constexpr auto  elements() const -> const_elements_range {return const_elements_range{this->base(), this->layout()};}
 
 	constexpr auto celements() const  -> const_elements_range {return elements_aux_();}
 
